@@ -4,3 +4,4 @@ CONSTANTS
 VIEW mcview
 INVARIANT NoOrphans
 INVARIANT FileNamesLiveOrStale
+INVARIANT IdleRemovesOwnFile
